@@ -129,10 +129,14 @@ CallFailed(cfg, S, e) ==
   \cup Chk("C07", "C07.NothingInvented", arched => \A kk \in Dom(arch2) \ Dom(arch) : kk \in mid /\ arch2[kk] = (IF kk = k THEN newval ELSE mem[kk]))
   \cup Chk("C07", "C07.OtherArchivesUntouched", \A x \in 1..cfg.na : x # c => e.archs[x] = S.archs[x])
   \cup Chk("C07", "C07.BindingStable", e.cur = S.cur)
+  \cup Chk("C07", "C07.Retrievable", arched => \A kk \in S.g[i].kept \cup (IF class = "miss" THEN {k} ELSE {}) :
+                                         mem2[kk] # 0 \/ arch2[kk] # 0)
+  \cup Chk("C02", "C02.AtMostOnceWhileArchived", class = "miss" => k \notin S.g[i].kept)
   \cup Chk("C15", "C15.Count", <<inf2[1], inf2[2], inf2[3]>> = <<inf[1] + u[1], inf[2] + u[2], inf[3] + u[3]>>)
   \cup Chk("C15", "C15.Size", inf2[5] = Size(mem2))
   \cup Chk("C15", "C15.Maxsize", inf2[4] = maxs)
   \cup Chk("C20", "C20.Independent", others)
+  \cup Chk("C18", "C18.StoredUnderKey", mem2[cfg.nk] = 0 /\ \A x \in 1..cfg.na : e.archs[x][cfg.nk] = 0)
   ELSE IF class = "raise" THEN
        Chk("C16", "C16.SameException", e.exc = "same" /\ e.ret = 0)
   \cup Chk("C16", "C16.OneEvaluation", e.ev = <<a>>)
@@ -236,7 +240,16 @@ MgmtFailed(cfg, S, e) ==
                                /\ \A x \in 1..cfg.na : x # e.cur[j] => e.archs[x] = S.archs[x])
   [] OTHER -> {<<"ALL", "Trace.UnknownOp">>}
 
-Failed(cfg, S, e) == IF e.op = "call" THEN CallFailed(cfg, S, e) ELSE MgmtFailed(cfg, S, e)
+(* lock-step continuation after a dill round trip: the same operation was just applied to the   *)
+(* original (e.mirror) and must have had the same effect on the copy (e.i)                     *)
+MirrorFailed(cfg, S, e) ==
+  IF "mirror" \in DOMAIN e
+  THEN Chk("C20", "C20.LockStep", /\ e.mem[e.i] = e.mem[e.mirror] /\ e.info[e.i] = e.info[e.mirror]
+                                  /\ e.ret = e.mret /\ e.exc = e.mexc)
+  ELSE {}
+
+Failed(cfg, S, e) == (IF e.op = "call" THEN CallFailed(cfg, S, e) ELSE MgmtFailed(cfg, S, e))
+                     \cup MirrorFailed(cfg, S, e)
 
 -----------------------------------------------------------------------------
 (* Ghost update: recency, frequency, taint (entries that entered memory     *)
@@ -258,26 +271,28 @@ GhostAfter(cfg, S, e) ==
                  !.clock = cl,
                  !.last  = [kk \in 1..cfg.nk |-> IF m2[kk] = 0 THEN 0 ELSE IF kk = k THEN cl ELSE g.last[kk]],
                  !.uses  = [kk \in 1..cfg.nk |-> IF m2[kk] = 0 THEN 0 ELSE U[kk]],
-                 !.taint = g.taint /\ Size(m2) > 0 ]]
+                 !.taint = g.taint /\ Size(m2) > 0,
+                 !.kept  = IF class = "miss" /\ S.cur[i] # 0 THEN g.kept \cup {k} ELSE g.kept ]]
         ELSE S.g
   ELSE IF e.op \in {"load", "loadk"} THEN
      [S.g EXCEPT ![i] = [g EXCEPT !.taint = g.taint \/ Dom(e.mem[i]) # Dom(S.mem[i])]]
   ELSE IF e.op = "clear" THEN
      [S.g EXCEPT ![i] = [g EXCEPT !.taint = Size(e.mem[i]) > 0,
-                                  !.last = EmptyMap(cfg.nk), !.uses = EmptyMap(cfg.nk)]]
+                                  !.last = EmptyMap(cfg.nk), !.uses = EmptyMap(cfg.nk),
+                                  !.kept = g.kept \cap Dom(ArchOf(cfg, S.archs, S.cur[i]))]]
   ELSE IF e.op = "arch_off" THEN
-     [S.g EXCEPT ![i] = [g EXCEPT !.parked = IF S.cur[i] # 0 THEN S.cur[i] ELSE g.parked]]
+     [S.g EXCEPT ![i] = [g EXCEPT !.parked = IF S.cur[i] # 0 THEN S.cur[i] ELSE g.parked, !.kept = {}]]
   ELSE IF e.op \in {"arch_on", "set_archive"} THEN
-     [S.g EXCEPT ![i] = [g EXCEPT !.parked = 0]]
+     [S.g EXCEPT ![i] = [g EXCEPT !.parked = 0, !.kept = {}]]
   ELSE IF e.op = "clone" THEN
      [S.g EXCEPT ![e.j] = g]
   ELSE IF e.op = "decorate" THEN
-     [S.g EXCEPT ![i] = [g EXCEPT !.taint = Size(e.mem[i]) > 0]]
+     [S.g EXCEPT ![i] = [g EXCEPT !.taint = Size(e.mem[i]) > 0, !.kept = {}]]
   ELSE S.g
 
 Ghost0(cfg) == [i \in 1..cfg.ni |->
                  [last |-> EmptyMap(cfg.nk), uses |-> EmptyMap(cfg.nk), clock |-> 0,
-                  taint |-> FALSE, parked |-> 0]]
+                  taint |-> FALSE, parked |-> 0, kept |-> {}]]
 
 Adopt(cfg, S, e) == [mem |-> e.mem, archs |-> e.archs, cur |-> e.cur, info |-> e.info,
                      g |-> GhostAfter(cfg, S, e)]
